@@ -237,7 +237,7 @@ func init() {
 			out = append(out, cc.boundedTest("asn1tools.MarshalLengthBytes", "asn1tools", "asn1len_test.go.txt", "^TestGowpBoundedASN1Length$",
 				"every length 0..2^24, values around each power of two from 2^24 to 2^55, agreement with the codec's own length octets; oracle: X.690 8.1.3 written out independently, round trip through GetLengthFromASN / GetNumberBytesInLengthHeader")...)
 			out = append(out, cc.boundedTest("messages round trip", "messages", "roundtrip_test.go.txt", "^TestGowpBoundedRoundTrip$",
-				"300 (thorough: 5000) pseudo-random values per type inside the RFC value ranges for Ticket, KDCReqBody, ASReq, TGSReq, ASRep, TGSRep, EncKDCRepPart, APReq, KRBError, KRBPriv, Authenticator: Unmarshal(Marshal(x)) == x, re-encoding reproduces the bytes, a ticket re-encoded after decryption is unchanged")...)
+				"300 (thorough: 5000) pseudo-random values per type inside the RFC value ranges for Ticket, KDCReqBody, ASReq, TGSReq, ASRep, TGSRep, EncKDCRepPart, APReq, KRBError, KRBPriv, Authenticator: Unmarshal(Marshal(x)) == x, re-encoding reproduces the bytes, a ticket re-encoded after decryption is unchanged (with a filled-in decrypted part, and after a real Decrypt for each of the six etypes: decryption does not write into the message)")...)
 			return out
 		},
 		Assumptions: []string{
